@@ -291,6 +291,8 @@ def run(chk, prog):
                            'boundaries differ with the speed of the machine' % '; '.join(x[1] for x in bad[:3]),
                            bad[0][0] if bad else ci.loc(bb))
 
+    thread_state_restored(chk, prog)
+
     # ---- seeding provenance
     ALLOWED_SEED = ('field:StoryState::story_seed', 'field:StoryState::previous_random')
     nseed = 0
@@ -313,3 +315,76 @@ def run(chk, prog):
                        'RNG seed in %s does not derive from the story seed only (story_seed present: %s; foreign '
                        'sources: %s)' % (root, has_seed, bad), fn.loc(bb), {'provenance': sorted(atoms)})
     chk.floor(R3, 'StdRng::seed_from_u64 call sites', nseed, 3)
+
+
+CELL_WRITES = ('Cell::set', 'Cell::replace', 'Cell::update', 'Cell::take', 'Cell::swap', 'RefCell::borrow_mut',
+               'RefCell::replace', 'RefCell::take', 'RefCell::replace_with')
+LOCAL_KEY = ('LocalKey::with', 'LocalKey::try_with', 'LocalKey::with_borrow_mut', 'LocalKey::set', 'LocalKey::replace',
+             'LocalKey::take', 'LocalKey::update')
+
+
+def thread_state_restored(chk, prog):
+    """State kept between calls on one thread (thread-local cells of the compiler) must be back where it was when a
+    compilation ends, whichever way it ends: otherwise what the next compilation on the thread produces depends on what
+    was compiled before it."""
+    from analysis.wbf import err_exits
+    R5 = 'C03.thread-state-restored'
+    chk.rule(R5, 'Every function of the compiler that writes a thread-local cell (LocalKey::with(|c| c.set(..)) and the '
+             'like) is either the Drop of a guard type, or hands such a guard to its caller: no error exit is reachable '
+             'once the cell has been written (in the closure that writes it, and - when that closure writes on all its '
+             'paths - in the function that calls it, other than by returning the closure\'s own result), and the '
+             'function\'s return type carries a type whose Drop writes the cell back. A refused compilation that leaves a '
+             'counter raised makes a later compilation on the same thread refuse (or accept) differently from a fresh '
+             'process: the output would no longer be a function of the source.')
+    writers = []            # (root fn, body containing the LocalKey call, block, [closures that write])
+    for fn in sorted(prog.fns.values(), key=lambda f: f.p):
+        if fn.crate != 'bladeink_compiler':
+            continue
+        for bb, t in fn.calls():
+            cs = callee_short(t)
+            if cs not in LOCAL_KEY:
+                continue
+            if cs in ('LocalKey::set', 'LocalKey::replace', 'LocalKey::take', 'LocalKey::update', 'LocalKey::with_borrow_mut'):
+                writers.append((prog.root_fn(fn), fn, bb, []))
+                continue
+            cls = [prog.fns[c] for c in (t['f'].get('closures') or []) if c in prog.fns]
+            wcl = [c for c in cls if any(callee_short(t2) in CELL_WRITES for g in prog.with_closures(c) for _, t2 in g.calls())]
+            if wcl:
+                writers.append((prog.root_fn(fn), fn, bb, wcl))
+    guards = set()
+    for root, fn, bb, wcl in writers:
+        if root.short.endswith('as Drop>::drop'):
+            guards.add(root.short.split(' as Drop')[0].lstrip('<'))
+    n = 0
+    for root, fn, bb, wcl in writers:
+        if root.short.endswith('as Drop>::drop'):
+            chk.ok(R5, chk.key(R5, root.short, 'restores'), 'the guard\'s Drop writes the cell back', fn.loc(bb))
+            continue
+        n += 1
+        bad = []
+        for c in wcl:
+            g = cfg(c)
+            wb = [b2 for b2, t2 in c.calls() if callee_short(t2) in CELL_WRITES]
+            errs = [b for b, d_, s_ in err_exits(prog, c)]
+            if wb and errs and g.path([s for b2 in wb for s in g.succ[b2]], lambda b: b in errs) is not None:
+                bad.append('the closure that raises the cell can still fail after the write')
+            always = bool(wb) and g.path([0], lambda b: b in g.returns, avoid=wb + errs) is None
+            if always:
+                gp = cfg(fn)
+                perr = [b for b, d_, s_ in err_exits(prog, fn) if not (s_ is not None and s_[0] == bb) and b != bb]
+                if perr and gp.path(gp.succ[bb], lambda b: b in perr) is not None:
+                    bad.append('%s can return an error after the cell has been raised, with no guard to lower it again'
+                               % root.short)
+        if not wcl:
+            bad.append('the cell is overwritten directly')
+        rty = root.body['locals'][0]['ty']
+        has_guard = any(gname and gname.rsplit('::', 1)[-1] in rty for gname in guards)
+        if not has_guard:
+            bad.append('%s does not return a guard whose Drop restores the cell (returns %s)' % (root.short, rty[:60]))
+        chk.decide(R5, chk.key(R5, root.short), not bad,
+                   'written only on the way to handing a restoring guard to the caller',
+                   'thread-local state of the compiler is left changed when a compilation fails: %s. The next compilation '
+                   'on the same thread starts from a different count than a fresh process, so the same source compiles to '
+                   'a different result depending on what the thread compiled before' % '; '.join(bad), fn.loc(bb))
+    chk.floor(R5, 'functions that raise a thread-local cell of the compiler', n, 1)
+    chk.floor(R5, 'guard types restoring a thread-local cell', len(guards), 1)
